@@ -229,7 +229,7 @@ def scene(draw, max_spheres=3, sphere_sphere=True, force_free=None, frictionless
             v = [draw(gen.f(-1.5, 1.5)), draw(gen.f(-1, 1)), draw(gen.f(-1.5, 0.5)) if z > r else 0.0]
         s = {"radius": r, "mass": m, "rigid": rigid, "r": pos, "v": v,
              # a ball whose mass distribution is not uniform: principal inertias differ, random initial orientation
-             "inertia": [draw(gen.f(0.15, 0.6)) for _ in range(3)] if rigid and not force_free and draw(st.integers(0, 2)) == 0 else None,
+             "inertia": [draw(gen.f(0.15, 0.6)) for _ in range(3)] if rigid and not force_free and draw(st.booleans()) else None,
              "P": draw(gen.unit_quat()) if rigid else None,
              "omega": [draw(gen.f(-5, 5)) for _ in range(3)] if rigid and draw(st.booleans()) else [0.0] * 3,
              "mu": 0.0 if frictionless else draw(st.sampled_from([0.0, 0.1, 0.3, 0.6, 1.0])),
